@@ -181,16 +181,97 @@ pub struct RunCfg<'a> {
     pub cancel_at: usize,
 }
 
-pub fn globals_from_json<'a>(g: &J) -> Result<Variables<'a>, String> {
-    let mut vars = Variables::new();
+/// interchange value -> real value, graph-node references resolved against `graph`
+pub fn value_from_json_g(v: &J, graph: &Graph) -> Option<Value> {
+    Some(match v["t"].as_str()? {
+        "gn" => {
+            let i = v["g"].as_u64()? as usize;
+            Value::GraphNode(graph.iter_nodes().nth(i)?)
+        }
+        "list" => Value::List(
+            v["l"].as_array()?.iter().map(|x| value_from_json_g(x, graph)).collect::<Option<Vec<_>>>()?,
+        ),
+        "set" => Value::Set(
+            v["e"].as_array()?.iter().map(|x| value_from_json_g(x, graph)).collect::<Option<BTreeSet<_>>>()?,
+        ),
+        _ => value_from_json(v)?,
+    })
+}
+
+pub fn globals_add_json(vars: &mut Variables, g: &J, graph: &Graph) -> Result<(), String> {
     if let Some(m) = g.as_object() {
         for (k, v) in m {
-            let val = value_from_json(v).ok_or_else(|| format!("bad global value {}", v))?;
+            let val = value_from_json_g(v, graph).ok_or_else(|| format!("bad global value {}", v))?;
             vars.add(Identifier::from(k.as_str()), val)
                 .map_err(|_| "duplicate global".to_string())?;
         }
     }
+    Ok(())
+}
+
+pub fn globals_from_json<'a>(g: &J, graph: &Graph) -> Result<Variables<'a>, String> {
+    let mut vars = Variables::new();
+    globals_add_json(&mut vars, g, graph)?;
     Ok(vars)
+}
+
+/// everything observable about the caller's variable sets through the public API
+pub fn globals_snapshot(inner: &Variables, outer: &Variables, graph: &Graph, src: &Src) -> J {
+    let mut a: Vec<(String, J)> = inner.iter().map(|(k, v)| (k.as_str().to_string(), value_to_json_lenient(v, graph, src))).collect();
+    a.sort_by(|x, y| x.0.cmp(&y.0));
+    let mut b: Vec<(String, J)> = outer.iter().map(|(k, v)| (k.as_str().to_string(), value_to_json_lenient(v, graph, src))).collect();
+    b.sort_by(|x, y| x.0.cmp(&y.0));
+    json!({"inner": a, "outer": b})
+}
+
+fn value_to_json_lenient(v: &Value, graph: &Graph, src: &Src) -> J {
+    match v {
+        Value::SyntaxNode(_) => json!({"t": "syn", "n": format!("{}", v)}),
+        Value::List(l) => json!({"t": "list", "l": l.iter().map(|x| value_to_json_lenient(x, graph, src)).collect::<Vec<_>>()}),
+        Value::Set(l) => json!({"t": "set", "e": l.iter().map(|x| value_to_json_lenient(x, graph, src)).collect::<Vec<_>>()}),
+        _ => value_to_json(v, graph, src),
+    }
+}
+
+/// File::try_visit_matches (strict and lazy) and Stanza::try_visit_matches, as plain data
+pub fn visit_all(file: &File, src: &Src) -> J {
+    let mut out = serde_json::Map::new();
+    for (key, lazy) in [("strict", false), ("lazy", true)] {
+        let mut v: Vec<J> = Vec::new();
+        let r = std::panic::catch_unwind(std::panic::AssertUnwindSafe(|| {
+            let _ = file.try_visit_matches::<(), _>(&src.tree, &src.text, lazy, |m| {
+                let root = src.pre_of_id(m.full_capture().id() as u64);
+                let mut caps = serde_json::Map::new();
+                for (name, q, nodes) in m.named_captures() {
+                    let ns: Vec<i64> = nodes.map(|n| src.pre_of_id(n.id() as u64)).collect();
+                    caps.insert(name.to_string(), json!({"q": crate::oracle::quant_name(q), "nodes": ns}));
+                }
+                let ql = m.query_location();
+                v.push(json!({"st": [ql.row, ql.column], "root": root, "caps": J::Object(caps)}));
+                Ok(())
+            });
+        }));
+        out.insert(key.to_string(), if r.is_ok() { json!(v) } else { json!("panic") });
+    }
+    let mut per = Vec::new();
+    for stanza in &file.stanzas {
+        let mut v: Vec<J> = Vec::new();
+        let r = std::panic::catch_unwind(std::panic::AssertUnwindSafe(|| {
+            let _ = stanza.try_visit_matches::<(), _>(&src.tree, &src.text, |m| {
+                let root = src.pre_of_id(m.full_capture().id() as u64);
+                let mut caps = serde_json::Map::new();
+                for (name, q, nodes) in m.named_captures() {
+                    let ns: Vec<i64> = nodes.map(|n| src.pre_of_id(n.id() as u64)).collect();
+                    caps.insert(name.to_string(), json!({"q": crate::oracle::quant_name(q), "nodes": ns}));
+                }
+                v.push(json!({"root": root, "caps": J::Object(caps)}));
+                Ok(())
+            });
+        }));
+        per.push(if r.is_ok() { json!(v) } else { json!("panic") });
+    }
+    out.insert("stanzas".to_string(), json!(per));
+    J::Object(out)
 }
 
 pub fn load(text: &str) -> Result<File, tree_sitter_graph::ParseError> {
